@@ -467,19 +467,22 @@ def dgroups(tn, ms, rng, max_abs=6):
             else:
                 val[i] = dnondefault(m, rng)
         at_default = [i for i in dms if i not in away]
-        inputs, ff, descr = [], set(), []
+        inputs, ff, descr, assign = [], set(), [], []
         subsets = [()]
         for r in range(1, len(at_default) + 1):
             subsets += list(itertools.combinations(at_default, r))
         for sub in subsets:
             for true_form in ((b"\x01", b"\xff") if any(ms[i]["kind"] == "bool" and ms[i]["default"] is True for i in sub) else (b"\x01",)):
                 body = b""
+                stored = {}
                 for i, m in enumerate(ms):
                     v = val[i]
                     if v is None or (i in at_default and i not in sub):
                         continue
                     form = true_form if (m["kind"] == "bool" and i in sub) else None
                     body += ctx(i, dvalue_octets(m, v, form))
+                    stored[i] = v
+                assign.append(stored)
                 if true_form == b"\xff":
                     ff.add(len(inputs))
                 inputs.append(uni(16, body, True))
@@ -488,7 +491,7 @@ def dgroups(tn, ms, rng, max_abs=6):
         kind = "default-ext" if ext_explicit else "default-root"
         if len(inputs) < 2:
             continue
-        out.append((tn, kind, inputs, {"value": {ms[i]["name"]: val[i] for i in val}, "ff": ff, "spelled": descr}))
+        out.append((tn, kind, inputs, {"value": {ms[i]["name"]: val[i] for i in val}, "ff": ff, "spelled": descr, "assign": assign, "ms": ms}))
     return out
 
 
@@ -599,3 +602,68 @@ def sany_groups(rng, tier):
                 out.append(("TS", "setof-perm", [uni(16, ctx(0, b"\x01") + ctx(1, b"".join(members[i] for i in q), True), True) for q in orders],
                             {"members": [m.hex() for m in members]}))
     return out
+
+
+def dx_vstr(m, v):
+    return ("T" if v else "F") if m["kind"] == "bool" else "I%d;" % v
+
+
+def dx_model(ms):
+    """(ety, dfl root, dfl adds) strings of ocaml/drv_c06.ml for a generated type: AUTOMATIC TAGS give member i the tag [i];
+    an ENUMERATED { red(0), grn(1), blu(2) } is written as INTEGER (0..2) (same tag, same DER / UPER / OER octets)"""
+    def tstr(i, m):
+        tg = i * 4 + 2
+        if m["kind"] == "bool":
+            return "b%d" % tg
+        if m["kind"] == "enum":
+            return "i%d[0,2,0]" % tg
+        lo, hi = m["con"] if m["con"] else ("*", "*")
+        return "i%d[%s,%s,0]" % (tg, lo, hi)
+    root = [(i, m) for i, m in enumerate(ms) if not m["ext"]]
+    adds = [(i, m) for i, m in enumerate(ms) if m["ext"]]
+    ety = "E64{%s}{%s}" % ("".join(("?" if (m["default"] is not None or m["optional"]) else "") + tstr(i, m) for i, m in root),
+                            "".join(tstr(i, m) for i, m in adds))
+    d = lambda part: "{" + "".join(dx_vstr(m, m["default"]) if m["default"] is not None else "_" for i, m in part) + "}"
+    return ety, d(root), d(adds)
+
+
+def dx_model_value(ms, stored):
+    """the structure as stored: S{root members, then _ / !val per addition}"""
+    out = []
+    for i, m in enumerate(ms):
+        omissible = m["ext"] or m["default"] is not None or m["optional"]
+        if i in stored:
+            out.append(("!" if omissible else "") + dx_vstr(m, stored[i]))
+        else:
+            out.append("_")
+    return "S{" + "".join(out) + "}"
+
+
+# ---------------------------------------------------------------- the fragment loop with a parameter (spec side, python)
+
+def py_pad_key(bits):
+    b = bits + "0" * (-len(bits) % 8)
+    return bytes(int(b[i:i + 8], 2) for i in range(0, len(b), 8))
+
+
+def py_len_det(n):
+    return format(n, "08b") if n <= 127 else format(n + 32768, "016b")
+
+
+def py_fragments(K, items, sort_each=False):
+    """X.691 11.9 with the fragment unit K instead of 16K; items = bit strings; sort_each: every fragment sorted on its own"""
+    srt = lambda l: sorted(l, key=py_pad_key)
+    if not sort_each:
+        items = srt(items)
+    out = ""
+    while True:
+        n = len(items)
+        if n < K:
+            part = srt(items) if sort_each else items
+            return out + py_len_det(n) + "".join(part)
+        m = min(n // K, 4)
+        part = items[:m * K]
+        if sort_each:
+            part = srt(part)
+        out += format(192 + m, "08b") + "".join(part)
+        items = items[m * K:]
